@@ -56,6 +56,14 @@ impl StorageMap {
     }
 }
 
+#[cfg(feature = "verif")]
+impl StorageMap {
+    /// Number of slots that still hold a value
+    pub fn verif_live_slots(&self) -> usize {
+        self.locals.values().filter(|v| v.is_some()).count()
+    }
+}
+
 #[derive(Debug)]
 #[non_exhaustive]
 pub struct AlreadyDestructedError;
